@@ -234,41 +234,44 @@ func runC12(c *Ctx) {
 				if !isEntryAppend(in) {
 					continue
 				}
-				n++
 				els := variadicElems(in.(*ssa.Call).Call.Args[1])
 				if len(els) != 1 {
+					n++
 					c.Undecided("R2", "tree:entry-value", p.InstrPos(in), "cannot see the appended entry")
 					continue
 				}
-				v := els[0]
-				okMode, okName := false, false
-				desc := describeValue(p, v)
-				if cc, _, ok := CallResult(v); ok {
-					switch CalleeName(cc.Common()) {
-					case "git/githistory.copyEntry":
-						okMode = isCurrent(cc.Call.Args[0])
-						okName = okMode
-						if okMode {
-							desc = "copyEntry(entry)"
-						} else {
-							desc = "copyEntry(other)"
-						}
-					case "git/githistory.copyEntryMode":
-						okMode = modeOfCurrent(cc.Call.Args[1])
-						okName = true // a cached entry of the same path
-						desc = "copyEntryMode(…)"
-					case "(*git/githistory.Rewriter).cacheEntry":
-						// third argument: the literal
-						if al, ok := Unwrap(cc.Call.Args[3]).(*ssa.Alloc); ok {
-							flds := literalFields(al)
-							okMode = flds["Filemode"] != nil && modeOfCurrent(flds["Filemode"])
-							okName = flds["Name"] != nil && nameOfCurrent(flds["Name"])
-							desc = "cacheEntry(…, &TreeEntry{…})"
+				// one append may emit an entry computed on several paths (φ): each live source is judged
+				for _, v := range liveSources(els[0]) {
+					n++
+					okMode, okName := false, false
+					desc := describeValue(p, v)
+					if cc, _, ok := CallResult(v); ok {
+						switch CalleeName(cc.Common()) {
+						case "git/githistory.copyEntry":
+							okMode = isCurrent(cc.Call.Args[0])
+							okName = okMode
+							if okMode {
+								desc = "copyEntry(entry)"
+							} else {
+								desc = "copyEntry(other)"
+							}
+						case "git/githistory.copyEntryMode":
+							okMode = modeOfCurrent(cc.Call.Args[1])
+							okName = true // a cached entry of the same path
+							desc = "copyEntryMode(…)"
+						case "(*git/githistory.Rewriter).cacheEntry":
+							// third argument: the literal
+							if al, ok := Unwrap(cc.Call.Args[3]).(*ssa.Alloc); ok {
+								flds := literalFields(al)
+								okMode = flds["Filemode"] != nil && modeOfCurrent(flds["Filemode"])
+								okName = flds["Name"] != nil && nameOfCurrent(flds["Name"])
+								desc = "cacheEntry(…, &TreeEntry{…})"
+							}
 						}
 					}
+					c.Check(okMode, "R2", fmt.Sprintf("tree:entry-mode#%d(%s)", n, desc), p.InstrPos(in), "the emitted entry carries the mode of the original entry at this path in this commit", "the emitted tree entry ("+desc+") does not take its file mode from the original entry of this commit (e.g. a cached rewrite is reused with the mode it had in an earlier commit): a chmod-only commit is lost")
+					c.Check(okName, "R2", fmt.Sprintf("tree:entry-name#%d(%s)", n, desc), p.InstrPos(in), "the emitted entry carries the original entry's name", "the emitted tree entry does not carry the original entry's name")
 				}
-				c.Check(okMode, "R2", fmt.Sprintf("tree:entry-mode#%d(%s)", n, desc), p.InstrPos(in), "the emitted entry carries the mode of the original entry at this path in this commit", "the emitted tree entry ("+desc+") does not take its file mode from the original entry of this commit (e.g. a cached rewrite is reused with the mode it had in an earlier commit): a chmod-only commit is lost")
-				c.Check(okName, "R2", fmt.Sprintf("tree:entry-name#%d(%s)", n, desc), p.InstrPos(in), "the emitted entry carries the original entry's name", "the emitted tree entry does not carry the original entry's name")
 			}
 		}
 		c.AtLeast("R2", "entry appends in rewriteTree", n, 4)
@@ -603,4 +606,30 @@ func c12Order(c *Ctx) {
 		okR = false
 	}
 	c.Check(okR && rev, "R8", "scan-order:reverse", p.Pos(fn.Pos()), "oldest first (--reverse)", "the commits to rewrite are not listed oldest first: children would be rewritten before their parents")
+}
+
+// liveSources lists the values a (possibly φ) value can actually be: φ-nodes are expanded, the dead zero values
+// of error paths (errorPathEdge) are left out.
+func liveSources(v ssa.Value) []ssa.Value {
+	var out []ssa.Value
+	seen := map[ssa.Value]bool{}
+	var walk func(x ssa.Value, d int)
+	walk = func(x ssa.Value, d int) {
+		if seen[x] || d > 6 {
+			return
+		}
+		seen[x] = true
+		if ph, ok := x.(*ssa.Phi); ok {
+			for i, e := range ph.Edges {
+				if errorPathEdge(ph, i) {
+					continue
+				}
+				walk(e, d+1)
+			}
+			return
+		}
+		out = append(out, x)
+	}
+	walk(v, 0)
+	return out
 }
